@@ -377,7 +377,9 @@ fn run_world(case: SearchCase) {
         if spec.fresh {
             artifact = None;
         }
-        if !spec.history.is_empty() {
+        // (C17 cases always hand the engine an explicit artifact, so that a search with and
+        // one without recorded positions consume their random stream identically)
+        if !spec.history.is_empty() || (case.prop == "C17" && artifact.is_none()) {
             let mut a = artifact.take().unwrap_or_else(|| verif::new_artifact(case.hasher_seed, case.dims.0, case.dims.1));
             for h in &spec.history {
                 let s = bridge::state_from_fen(h).expect("history FEN must parse");
@@ -768,6 +770,23 @@ fn judge(
         }
     }
 
+    // ---- C17 not over-applied: a control pair (same position, seed, depth, one worker, fresh
+    // memory; the second with positions recorded that the search cannot reach)
+    if case.prop == "C17" && case.searches.len() == 2 && recs.len() == 2 {
+        let (a, b) = (&case.searches[0], &case.searches[1]);
+        if a.fen == b.fen && a.seed == b.seed && a.depth == b.depth && a.fresh && b.fresh && a.history.is_empty() && !b.history.is_empty() {
+            stats.eval("C17:not-over-applied");
+            if recs[0].events != recs[1].events {
+                v.push(Violation::new(
+                    "C17",
+                    "over-applied",
+                    "",
+                    format!("'{}' depth {:?}: recording {:?} (none of which the search can reach) changed the search's reports", a.fen, a.depth, b.history),
+                ));
+            }
+        }
+    }
+
     // ---- how the run ended
     let running = recs.len().saturating_sub(1);
     let cur = case.searches.get(running);
@@ -905,7 +924,12 @@ fn pick_position(ctx: &Ctx, rng: &mut Rng64) -> Pos {
         }
         _ => {
             let _ = ctx;
-            corpus::random_heavy(rng)
+            match rng.below(4) {
+                0 => corpus::random_heavy(rng),
+                1 => corpus::random_rich(rng),
+                2 => Pos::from_fen(rng.pick(corpus::SPECIAL_MATES).1).unwrap(),
+                _ => corpus::random_pawn_endgame(rng),
+            }
         }
     }
 }
@@ -1259,6 +1283,28 @@ pub fn generate(ctx: &Ctx, prop: &str, rng: &mut Rng64, thorough: bool, index: u
             };
             depth = depth.min(max_d).max(1);
             case.searches.push(SearchSpec { fen: pos.fen(), depth: Some(depth), seed: rng.next(), entry, rayon_threads: rt, fresh: true, history: vec![], faults: vec![] });
+        }
+        "C17" if rng.chance(80) => {
+            // not over-applied: recording positions that cannot occur in the search (siblings
+            // that differ in castling rights / en-passant square, unrelated positions) must not
+            // change a single event of a single-worker search
+            case.dims = (8, 1024);
+            let base = if rng.chance(500) { Pos::from_fen(rng.pick(corpus::RIGHTS)).unwrap() } else { corpus::tb_win_in(rng, &ctx.tb, 3) };
+            let mut irrelevant: Vec<String> = Vec::new();
+            for sib in corpus::siblings(&base).into_iter().take(3) {
+                // a sibling with *more* rights or another en-passant state can never be reached from `base`
+                if sib.castling & !base.castling != 0 || (sib.ep.is_some() && sib.ep != base.ep) {
+                    irrelevant.push(sib.fen());
+                }
+            }
+            // positions with more men than `base` cannot be reached either
+            if base.piece_count() < 6 {
+                irrelevant.push(Pos::from_fen(rng.pick(corpus::NORMAL)).unwrap().fen());
+            }
+            let depth = 1 + rng.below(4) as u32;
+            let seed = rng.next();
+            case.searches.push(SearchSpec { fen: base.fen(), depth: Some(depth), seed, entry: Entry::Sync { workers: Some(1) }, rayon_threads: 1, fresh: true, history: vec![], faults: vec![] });
+            case.searches.push(SearchSpec { fen: base.fen(), depth: Some(depth), seed, entry: Entry::Sync { workers: Some(1) }, rayon_threads: 1, fresh: true, history: irrelevant, faults: vec![] });
         }
         "C17" if rng.chance(180) => {
             // positions outside the tablebases whose mate-keeping first move is a pawn move or
